@@ -1,5 +1,6 @@
 import J5V.Bcl.Utf8
 import J5V.Bcl.PosLines
+import J5V.Bcl.ApplyProofs
 /-!
 # `[]rune(string)` keeps line structure: the number of `\n` runes equals the number of `0x0a` bytes,
 so `strings.Split(src, "\n")` has as many lines as the lexer sees.
@@ -74,5 +75,162 @@ theorem countNL_decodeRunes (bs : List Nat) : countNL (decodeRunes bs) = countNL
 theorem lineCount_decodeRunes (bs : List Nat) :
     (splitLines (decodeRunes bs)).length = (splitLines bs).length := by
   rw [splitLines_length, splitLines_length, countNL_decodeRunes]
+
+
+/-- decoding the head does not look past a newline byte -/
+theorem decodeOne_before_nl (x : Nat) (a b : List Nat) :
+    decodeOne (x :: a ++ cNL :: b) = decodeOne (x :: a) ∧ (decodeOne (x :: a)).2 ≤ (x :: a).length := by
+  match a with
+  | [] =>
+    show decodeOne (x :: cNL :: b) = decodeOne [x] ∧ _
+    unfold decodeOne; simp only []; repeat' split
+    all_goals simp_all [isCont, runeError, cNL]
+    all_goals omega
+  | [y] =>
+    show decodeOne (x :: y :: cNL :: b) = decodeOne [x, y] ∧ _
+    unfold decodeOne; simp only []; repeat' split
+    all_goals simp_all [isCont, runeError, cNL]
+    all_goals omega
+  | [y, z] =>
+    show decodeOne (x :: y :: z :: cNL :: b) = decodeOne [x, y, z] ∧ _
+    unfold decodeOne; simp only []; repeat' split
+    all_goals simp_all [isCont, runeError, cNL]
+    all_goals omega
+  | y :: z :: u :: rest =>
+    show decodeOne (x :: y :: z :: u :: (rest ++ cNL :: b)) = decodeOne (x :: y :: z :: u :: rest) ∧ _
+    unfold decodeOne; simp only []; repeat' split
+    all_goals simp_all [isCont, runeError, cNL]
+    all_goals omega
+
+/-- any two fuels ≥ the number of bytes give the same decoding -/
+theorem decodeRunesFuel_irrel (f : Nat) : ∀ (g : Nat) (bs : List Nat), bs.length ≤ f → bs.length ≤ g →
+    decodeRunesFuel f bs = decodeRunesFuel g bs := by
+  induction f with
+  | zero =>
+    intro g bs h _
+    have : bs = [] := List.eq_nil_of_length_eq_zero (Nat.le_zero.mp h)
+    subst this
+    cases g <;> rfl
+  | succ f ih =>
+    intro g bs h hg
+    cases bs with
+    | nil => cases g <;> rfl
+    | cons b rest =>
+      cases g with
+      | zero => simp at hg
+      | succ g =>
+        unfold decodeRunesFuel
+        obtain ⟨h1, _⟩ := decodeOne_nl b rest
+        generalize decodeOne (b :: rest) = d at h1
+        obtain ⟨r, n⟩ := d
+        simp only at h1 ⊢
+        have hl1 : ((b :: rest).drop n).length ≤ f := by simp at h ⊢; omega
+        have hl2 : ((b :: rest).drop n).length ≤ g := by simp at hg ⊢; omega
+        rw [ih g _ hl1 hl2]
+
+theorem decodeRunes_cons (b : Nat) (rest : List Nat) :
+    decodeRunes (b :: rest) =
+      (decodeOne (b :: rest)).1 :: decodeRunes ((b :: rest).drop (decodeOne (b :: rest)).2) := by
+  have e : decodeRunes (b :: rest) = decodeRunesFuel (rest.length + 1) (b :: rest) := rfl
+  rw [e]
+  conv => lhs; unfold decodeRunesFuel
+  obtain ⟨h1, _⟩ := decodeOne_nl b rest
+  generalize decodeOne (b :: rest) = d at h1
+  obtain ⟨r, n⟩ := d
+  simp only at h1 ⊢
+  congr 1
+  exact decodeRunesFuel_irrel _ _ _ (by simp; omega) (Nat.le_refl _)
+
+/-- decoding distributes over a newline byte -/
+theorem decodeRunes_nl (n : Nat) : ∀ (a b : List Nat), a.length ≤ n →
+    decodeRunes (a ++ cNL :: b) = decodeRunes a ++ cNL :: decodeRunes b := by
+  induction n with
+  | zero =>
+    intro a b h
+    have : a = [] := List.eq_nil_of_length_eq_zero (Nat.le_zero.mp h)
+    subst this
+    show decodeRunes (cNL :: b) = _
+    rw [decodeRunes_cons]
+    have : decodeOne (cNL :: b) = (cNL, 1) := by unfold decodeOne; simp [cNL]
+    rw [this]
+    rfl
+  | succ n ih =>
+    intro a b h
+    cases a with
+    | nil =>
+      show decodeRunes (cNL :: b) = _
+      rw [decodeRunes_cons]
+      have : decodeOne (cNL :: b) = (cNL, 1) := by unfold decodeOne; simp [cNL]
+      rw [this]
+      rfl
+    | cons x a' =>
+      obtain ⟨e1, e2⟩ := decodeOne_before_nl x a' b
+      obtain ⟨h1, _⟩ := decodeOne_nl x a'
+      show decodeRunes (x :: (a' ++ cNL :: b)) = _
+      rw [decodeRunes_cons, decodeRunes_cons x a']
+      have e1' : decodeOne (x :: (a' ++ cNL :: b)) = decodeOne (x :: a') := e1
+      rw [e1']
+      generalize decodeOne (x :: a') = d at e2 h1
+      obtain ⟨r, k⟩ := d
+      simp only at e2 h1 ⊢
+      have hdrop : (x :: (a' ++ cNL :: b)).drop k = (x :: a').drop k ++ cNL :: b := by
+        have : x :: (a' ++ cNL :: b) = (x :: a') ++ cNL :: b := rfl
+        rw [this, List.drop_append_of_le_length e2]
+      rw [hdrop, ih _ b (by simp at h ⊢; omega)]
+      rfl
+
+theorem countNL_eq_zero_iff (l : List Nat) : countNL l = 0 ↔ cNL ∉ l := by
+  induction l with
+  | nil => simp [countNL]
+  | cons x xs ih =>
+    simp only [countNL, List.mem_cons, not_or]
+    by_cases hx : x = cNL
+    · simp [hx]
+    · simp only [hx, if_false, Nat.zero_add, ih]
+      constructor
+      · intro h; exact ⟨fun e => hx e.symm, h⟩
+      · intro h; exact h.2
+
+/-- without a newline byte there is no newline rune -/
+theorem decodeRunes_no_nl (bs : List Nat) (h : cNL ∉ bs) : cNL ∉ decodeRunes bs := by
+  rw [← countNL_eq_zero_iff, countNL_decodeRunes, countNL_eq_zero_iff]
+  exact h
+
+/-- `strings.Split` on newlines and `[]rune` commute -/
+theorem splitLines_decodeRunes (n : Nat) : ∀ bs : List Nat, bs.length ≤ n →
+    splitLines (decodeRunes bs) = (splitLines bs).map decodeRunes := by
+  induction n with
+  | zero =>
+    intro bs h
+    have : bs = [] := List.eq_nil_of_length_eq_zero (Nat.le_zero.mp h)
+    subst this; rfl
+  | succ n ih =>
+    intro bs h
+    by_cases hnl : cNL ∈ bs
+    · have hex : ∃ a b, bs = a ++ cNL :: b ∧ cNL ∉ a := by
+        clear ih h
+        induction bs with
+        | nil => cases hnl
+        | cons x xs ihx =>
+          by_cases hx : x = cNL
+          · exact ⟨[], xs, by rw [hx]; rfl, by simp⟩
+          · have : cNL ∈ xs := by
+              rcases List.mem_cons.mp hnl with e | e
+              · exact absurd e.symm hx
+              · exact e
+            obtain ⟨a, b, e1, e2⟩ := ihx this
+            exact ⟨x :: a, b, by rw [e1]; rfl, by
+              intro hm
+              rcases List.mem_cons.mp hm with e | e
+              · exact hx e.symm
+              · exact e2 e⟩
+      obtain ⟨a', b', e', ha'⟩ := hex
+      subst e'
+      have hb : b'.length ≤ n := by simp at h; omega
+      rw [decodeRunes_nl a'.length a' b' (Nat.le_refl _), splitLines_append_nl, splitLines_append_nl,
+        ih b' hb, splitLines_no_nl a' ha', splitLines_no_nl _ (decodeRunes_no_nl a' ha')]
+      simp
+    · rw [splitLines_no_nl bs hnl, splitLines_no_nl _ (decodeRunes_no_nl bs hnl)]
+      rfl
 
 end J5V.Bcl
